@@ -10,6 +10,12 @@ def INCLUDE(name):
 
 def replay(ob):
     n = ob["name"]
+    if "UnsqueezeUnsqueeze.does_not_fire" in n:
+        return HEAD + "main(['ovr_unsqueeze'])\n"
+    if "collapse_slice.does_not_fire" in n:
+        return HEAD + "main(['ovr_slice'])\n"
+    if "ScatterAllStatic.does_not_fire" in n:
+        return HEAD + "main(['ovr_scatter'])\n"
     if "RemoveOptionalBias" in n and "overridable" in n:
         return HEAD + "main(['ovr_bias'])\n"
     if "ExpandIdentity.does_not_fire" in n:
